@@ -18,7 +18,7 @@ const SPEC: Spec = Spec {
     ],
     bounds_quick: "transcript of ~10^5 lines: to_str_radix/from_str_radix/to_radix_le for radix 2..=36 (digits 2..=256 on a subset) over Dense(S5,3) + patterns at 63..66 and 129 digits; roots of 2^k+-1 (every 7th k <= 2300) and perfect powers; Dense(S5,2)^2 arithmetic cross-section",
     bounds_thorough: "same families with every k <= 2300 for roots, all digit radices 2..=256 and Dense(S5,3)xDense(S5,2) arithmetic",
-    hang_secs: 600,
+    hang_secs: 180,
     probes: None,
     max_workers: 1,
 };
